@@ -93,6 +93,10 @@ def all_jobs():
         J.append(dict(id='capi_' + fn, src='blocc/bloc_capi.cpp', contract='capi_array.c', enforce=fn, roots=[fn], replace=[], cut=[RTE_CTOR, RTE_CTOR_S],
                       props=['C01', 'C15'], pretty=fn, canaries=['normal'],
                       structs=DEFAULT_STRUCTS + [STD_STRING, VEC_CHAR, 'bloc::Error', 'bloc::Collection', 'bloc::Expression']))
+    V_CTOR_LIT_ = '_ZN4bloc5ValueC1EPNSt7__cxx1112basic_stringIcSt11char_traitsIcESaIcEEE'
+    for fn in ('bloc_assign_literal',):
+        J.append(dict(id='capi_' + fn, src='blocc/bloc_capi.cpp', contract='capi_assign.c', enforce=fn, roots=[fn], replace=['_ZN4bloc5Value4swapEOS0_', V_CLEAR, V_CTOR_LIT_, V_MOVE_ASSIGN, V_MOVE_CTOR], cut=[RTE_CTOR, RTE_CTOR_S, '_ZN4bloc5Value4swapEOS0_', V_CLEAR, V_CTOR_LIT_, V_MOVE_ASSIGN, V_MOVE_CTOR],
+                      props=['C01', 'C15'], pretty=fn, canaries=['normal'], structs=DEFAULT_STRUCTS + [STD_STRING, VEC_CHAR, 'bloc::Error', 'bloc_type', 'bloc_pair']))
     V_SWAP_RV_, V_CTOR_LIT = '_ZN4bloc5Value4swapEOS0_', '_ZN4bloc5ValueC1EPNSt7__cxx1112basic_stringIcSt11char_traitsIcESaIcEEE'
     MEMB_REPLACE = [VCALL_VALUE, V_MOVE_ASSIGN, V_CLEAR, CTX_ALLOCATE, V_SWAP_RV_, V_CLONE, V_CTOR_LIT, V_MOVE_CTOR]
     MEMB_CUT = MEMB_REPLACE + [RTE_CTOR, RTE_CTOR_S, '_ZNK4bloc5Value8toStringB5cxx11Ev', '_ZNK4bloc5Value8typeNameB5cxx11Ev']
@@ -295,6 +299,11 @@ def all_jobs():
                   cut=['_ZN4bloc5Value4swapEOS0_', V_CLONE, V_CLEAR, RTE_CTOR, RTE_CTOR_S, '_ZNK4bloc5Value8typeNameB5cxx11Ev'], defines=['ENFORCING_VALUE_CLONE'],
                   props=['C01', 'C05', 'C08'], pretty='bloc::Context::storeVariable', canaries=['normal', 'exceptional'],
                   structs=DEFAULT_STRUCTS + [STD_STRING, 'bloc::Context', 'bloc::Symbol', 'bloc::Context::MemorySlot', 'bloc::Collection', 'bloc::Tuple']))
+    mg = '_ZN4bloc7Context5purgeEv'
+    PURGE_CUT = [V_CLEAR, '_ZN4bloc14FunctorManagerC1ERNS_7ContextE', '_ZN4bloc14FunctorManagerD1Ev', '_ZN4bloc14FunctorManagerC2ERNS_7ContextE', '_ZN4bloc14FunctorManagerD2Ev', '_ZN4bloc7Context4Pool5purgeEv']
+    J.append(dict(id='ctx_purge', src='blocc/context.cpp', contract='ctx_purge.c', enforce=mg, roots=[mg], replace=[], cut=PURGE_CUT,
+                  props=['C01', 'C14', 'C17'], pretty='bloc::Context::purge', canaries=['normal'],
+                  structs=DEFAULT_STRUCTS + ['bloc::Context', 'bloc::FunctorManager']))
     mg = '_ZNK4bloc17FunctorExpression5valueERNS_7ContextE'
     CREATEENV = '_ZN4bloc14FunctorManager9createEnvERNS_7ContextEjRKSt6vectorIPNS_10ExpressionESaIS5_EE'
     J.append(dict(id='fn_call', src='blocc/expression_functor.cpp', contract='fn_call.c', enforce=mg, roots=[mg], replace=[CTX_ALLOCATE, V_CLEAR], cut=[CREATEENV, CTX_ALLOCATE, V_CLEAR],
@@ -313,19 +322,27 @@ def all_jobs():
         mg = '_ZNK4bloc%d%s5valueERNS_7ContextE' % (len(cls), cls)
         if any(j['id'] == 'bi_' + name for j in J):
             continue
+        ftype = BUILTIN_FIXED_TYPE.get(name)
+        follows = name in BUILTIN_FOLLOWS_COMPLEX
         J.append(dict(id='bi_' + name, src='blocc/builtin/builtin_%s.cpp' % name, contract='builtin_generic.c', enforce=mg, roots=[mg], replace=list(MEMB_REPLACE) + [V_CTOR_IMAG], cut=list(MEMB_CUT) + [V_CTOR_IMAG],
-                      props=['C01', 'C05'], pretty='bloc::%s::value' % cls, canaries=['normal', 'exceptional'], unwind=uw,
+                      props=['C01', 'C05'] + (['C02'] if (ftype or follows) else []), pretty='bloc::%s::value' % cls, canaries=['normal', 'exceptional'], unwind=uw,
                       unwind_why=uw_why,
-                      defines=['BUILTIN_FN=' + mg, 'BUILTIN_CLASS=' + cls, 'BUILTIN_NARGS=%d' % nargs] + (['BUILTIN_STR_MAX=%d' % strmax] if strmax else []),
+                      defines=['BUILTIN_FN=' + mg, 'BUILTIN_CLASS=' + cls, 'BUILTIN_NARGS=%d' % nargs] + (['BUILTIN_STR_MAX=%d' % strmax] if strmax else []) + (['BUILTIN_TYPE=' + ftype] if ftype else []) + (['BUILTIN_TYPE_FOLLOWS_COMPLEX'] if follows else []),
                       replay=dict(kind='evalnode', headers=['blocc/builtin/builtin_%s.h' % name], mirror_class=cls, children=nargs,
                                   construct='new bloc::%s(std::vector<bloc::Expression*>{%s})' % (cls, ', '.join('kids[%d]' % i for i in range(nargs))),
                                   script='%s(%s)' % (name, ', '.join('{%d}' % i for i in range(nargs)))),
                       **({'bounded_inputs': True, 'thorough': dict(unwind=uw + 6, unwind_why=uw_why.replace('at most 2', 'at most 4') + ' (thorough tier)',
-                                                                     defines=['BUILTIN_FN=' + mg, 'BUILTIN_CLASS=' + cls, 'BUILTIN_NARGS=%d' % nargs, 'BUILTIN_STR_MAX=%d' % (strmax + 2)])} if strmax else {}),
+                                                                     defines=['BUILTIN_FN=' + mg, 'BUILTIN_CLASS=' + cls, 'BUILTIN_NARGS=%d' % nargs, 'BUILTIN_STR_MAX=%d' % (strmax + 2)] + (['BUILTIN_TYPE=' + ftype] if ftype else []))} if strmax else {}),
                       structs=DEFAULT_STRUCTS + [STD_STRING, VEC_CHAR, 'bloc::Imaginary', 'std::complex<double>', 'bloc::Context', 'bloc::' + cls]))
     return J
 
 # builtins under the generic contract (name, class, number of arguments); see tools/try_builtins.sh for how the list was grown
+# compiled type of the builtins whose type() is a constant (blocc/builtin/builtin_<name>.h / .cpp): checked as C02
+BUILTIN_FIXED_TYPE = dict(atan2='NUMERIC',
+                          imag='NUMERIC', iphase='NUMERIC', iconj='IMAGINARY', bool='BOOLEAN', isnull='BOOLEAN', strlen='INTEGER', strpos='INTEGER', typeof='LITERAL', lower='LITERAL', upper='LITERAL',
+                          lsubstr='LITERAL', rsubstr='LITERAL', substr='LITERAL', trim='LITERAL', ltrim='LITERAL', rtrim='LITERAL', hex='LITERAL', subraw='TABCHAR', raw='TABCHAR')
+# builtins whose type() is complex for a complex first argument and decimal otherwise
+BUILTIN_FOLLOWS_COMPLEX = {'cos', 'exp', 'log', 'sin', 'sqrt', 'tan', 'ceil', 'floor', 'round', 'acos', 'asin', 'atan', 'cosh', 'sinh', 'tanh', 'log10'}
 BUILTINS_GENERIC = [
     ('abs', 'ABSExpression', 1), ('acos', 'ACOSExpression', 1), ('asin', 'ASINExpression', 1), ('atan', 'ATANExpression', 1), ('atan2', 'ATAN2Expression', 2),
     ('bool', 'BOOLExpression', 1), ('ceil', 'CEILExpression', 1), ('clamp', 'CLAMPExpression', 3), ('cos', 'COSExpression', 1), ('cosh', 'COSHExpression', 1),
